@@ -36,6 +36,20 @@ def run(ctx):
             if c2 is not None and c2["accepted"]:
                 c2 = dict(c2); c2["name"] = c["name"] + "+rebuild"; extra.append(c2)
     cases += extra
+    # edges with a tiny weight: proper subsets with 0 < omega < 2^-52 are accepted and dominate J
+    for tiny in (2.0 ** -60, 2.0 ** -55, 1e-20):
+        for edges, w, massive, ext, D in (([(0, 1), (1, 2), (2, 0)], [tiny, 1.0, 1.0], [True, False, False], [0, 1, 2], 3),
+                                          ([(0, 1), (0, 1)], [2.0, tiny], [True, True], [0, 1], 3),
+                                          ([(0, 1), (1, 2), (2, 3), (3, 0)], [1.0, tiny, 1.0, 1.0], [False, True, False, False], [0, 1, 2, 3], 3)):
+            dod, Lf, table = oracle.table_oracle(edges, w, massive, ext, D)
+            if not oracle.divergent_subsets(table):
+                cases.append(dict(edges=edges, weights=w, massive=massive, ext=ext, D=D, table=table, dod=dod, loops=Lf, accepted=True,
+                                  name="tiny_weight"))
+    for c in list(cases[:: 4]):
+        for delta in (2.0 ** -60, 1e-17, 1e-13):
+            t = graphs.near_threshold(rng, c, delta)
+            if t is not None and t["accepted"]:
+                t = dict(t); t["name"] = c["name"] + "+tiny_omega"; cases.append(t)
     reqs = [graphs.request(c) for c in cases]
     impl = run_harness(reqs)
     q2, idx = [], []
